@@ -82,7 +82,7 @@ func buildPool(r *core.Rand, nv, nt, ns int) *vpool {
 func (p *vpool) pickIdx(r *core.Rand, op *opDef) (i0, i1 int) {
 	i0 = r.Intn(len(p.vals))
 	if op.p0 != nil {
-		for try := 0; try < 16; try++ {
+		for try := 0; try < 40; try++ {
 			j := r.Intn(len(p.vals))
 			if op.p0(p.vals[j]) {
 				i0 = j
